@@ -33,6 +33,9 @@ func TestMain(m *testing.M) {
 type Ev struct {
 	Kind  string         `json:"kind"` // mod del
 	Rules []stack.RuleOp `json:"rules,omitempty"`
+	// FailRm: URR ids whose removal by this message the data plane turns down once (a transient error): the URR stays,
+	// there is no final usage yet, and whatever ends the URR later returns it
+	FailRm []uint32 `json:"fail_rm,omitempty"`
 }
 
 type Case struct {
@@ -81,6 +84,7 @@ func setOf(ids []uint32) map[uint32]bool {
 type stats struct {
 	updAssocDissolved bool
 	sharedLastGone    bool
+	failedRemove      bool // a Remove URR the data plane turned down
 	refusedCreate     bool // a Create PDR for a PDR the session has
 	unknownUpdWithEnd bool // a message with an Update PDR the session cannot apply and a report due from another IE
 	excluded          map[string]int
@@ -88,7 +92,8 @@ type stats struct {
 
 // apply computes the expected reports of one message and updates the model.
 // Processing order of the UPF: create URR, create PDR, remove URR, remove PDR, update PDR, query URR.
-func (m *model) apply(rules []stack.RuleOp, stt *stats) (termr, immer map[uint32]int) {
+func (m *model) apply(rules []stack.RuleOp, stt *stats, failRm ...uint32) (termr, immer map[uint32]int) {
+	failing := setOf(failRm)
 	termr, immer = map[uint32]int{}, map[uint32]int{}
 	detach := func(p, u uint32) {
 		if !m.pdr[p][u] {
@@ -133,6 +138,10 @@ func (m *model) apply(rules []stack.RuleOp, stt *stats) (termr, immer map[uint32
 	m.noteShared()
 	for _, ru := range rules {
 		if ru.Kind == "URR" && ru.Verb == "remove" && m.urr[ru.ID] {
+			if failing[ru.ID] {
+				stt.failedRemove = true
+				continue // turned down by the data plane: the URR is still there
+			}
 			if !m.quiet[ru.ID] {
 				termr[ru.ID]++
 			}
@@ -250,6 +259,7 @@ func gen(t *rapid.T) Case {
 	n := rapid.IntRange(1, 20).Draw(t, "n")
 	for i := 0; i < n; i++ {
 		var rules []stack.RuleOp
+		var failRm []uint32
 		urrOp := map[uint32]bool{}   // URRs named by a Create/Remove/Query URR IE of this message
 		touched := map[uint32]bool{} // URRs that may get a report through this message (at most one cause each)
 		touchedP := map[uint32]bool{}
@@ -273,9 +283,13 @@ func gen(t *rapid.T) Case {
 				if !urr[u] || urrOp[u] || touched[u] {
 					continue
 				}
-				delete(urr, u)
 				urrOp[u], touched[u] = true, true
 				rules = append(rules, stack.RuleOp{Verb: "remove", Kind: "URR", ID: u})
+				if rapid.IntRange(0, 4).Draw(t, "fail_rm") == 0 {
+					failRm = append(failRm, u) // the data plane turns the removal down: the URR stays
+				} else {
+					delete(urr, u)
+				}
 			case "query":
 				u := uint32(rapid.IntRange(1, 4).Draw(t, "urr"))
 				if !urr[u] || urrOp[u] || touched[u] {
@@ -439,7 +453,7 @@ func gen(t *rapid.T) Case {
 			}
 		}
 		if len(rules) > 0 {
-			c.Evs = append(c.Evs, Ev{Kind: "mod", Rules: rules})
+			c.Evs = append(c.Evs, Ev{Kind: "mod", Rules: rules, FailRm: failRm})
 		}
 	}
 	c.Evs = append(c.Evs, Ev{Kind: "del"})
@@ -569,7 +583,15 @@ func run(c Case) (v *vcore.Violation, stt stats) {
 	for i, ev := range c.Evs {
 		switch ev.Kind {
 		case "mod":
-			wantT, wantI := m.apply(ev.Rules, &stt)
+			wantT, wantI := m.apply(ev.Rules, &stt, ev.FailRm...)
+			failNow := setOf(ev.FailRm)
+			d.FailRemove = func(kind string, seid uint64, id uint32) bool {
+				if kind == "URR" && failNow[id] {
+					delete(failNow, id)
+					return true
+				}
+				return false
+			}
 			if len(wantT)+len(wantI) > 0 {
 				for _, ru := range ev.Rules {
 					if ru.Kind == "PDR" && ru.Verb == "update" && ru.Prec == 3 {
@@ -678,6 +700,9 @@ func account(c Case, s stats) {
 	}
 	if s.sharedLastGone {
 		vcore.E.Class("shared_urr_last_reference_gone")
+	}
+	if s.failedRemove {
+		vcore.E.Class("remove_urr_turned_down_by_the_data_plane")
 	}
 	if s.refusedCreate {
 		vcore.E.Class("create_pdr_for_a_pdr_that_exists")
